@@ -20,13 +20,13 @@ def run(ctx):
         ctx.tlc_mc(fam, "MuxCache", "MuxCache_MC_bug_del.cfg", workers=1, expect_violation="Coherent")
         ctx.tlc_mc(fam, "MuxCache", "MuxCache_MC_map.cfg", workers=16)
         ctx.tlc_mc(fam, "MuxCache", "MuxCache_MC_big.cfg", workers=16, timeout=3000, heap="16g")
-    pdir, plans = ctx.tlc_plans(fam, "MuxCache_Gen", "MuxCache_Gen.cfg", num=ctx.q(160, 2500), depth=48,
+    pdir, plans = ctx.tlc_plans(fam, "MuxCache_Gen", "MuxCache_Gen.cfg", num=ctx.q(160, 2000), depth=48,
                                 timeout=1200)
     binary = ctx.go_build("c15")
     steps_f, stress_f = ctx.path("steps.ndjson"), ctx.path("stress.ndjson")
     ctx.harness(binary, ["-plans", pdir, "-out", steps_f, "-stress", stress_f, "-seed", ctx.seed,
-                         "-rand", ctx.q(110, 4000), "-nstress", ctx.q(25, 600),
-                         "-ncold", ctx.q(50, 1200)],
+                         "-rand", ctx.q(110, 3000), "-nstress", ctx.q(25, 600),
+                         "-ncold", ctx.q(50, 800)],
                 traces=[steps_f, stress_f])
     steps = ctx.load_traces(steps_f)
     stress = ctx.load_traces(stress_f)
@@ -44,11 +44,15 @@ def run(ctx):
         "serial (step-by-step) runs: submission order is acceptance order; stress runs: only "
         "real-time precedence is used",
         "a caller whose context ends returns at once; its operation stays accepted and is applied by "
-        "the worker as if the caller still waited (what the unchanged code does); Stop() during "
-        "traffic is not exercised",
+        "the worker as if the caller still waited (what the unchanged code does)",
+        "life cycle as the unchanged code defines it: calls made before Start wait in the queues, calls "
+        "accepted before Stop are still applied, later calls are refused (closed) without touching the "
+        "store; worker count 0 / negative and Start twice are not exercised (the unchanged code panics)",
     ]
     return ctx.finish(
-        rule="plans = TLC simulation of MuxCache.tla (3 keys, 1..3 workers, map/LRU, 16 operations with "
+        rule="life-cycle orders (late Start, Stop with accepted calls, Stop before/after Start, racing Start/Stop in "
+             "cold-start rounds behind a spin barrier), configuration extremes (depth 0/negative/1, LRU capacity 0, "
+             "row sizes 0..3, up to 300 workers), pointer rows rendered late, nested reads from callbacks; plans = TLC simulation of MuxCache.tla (3 keys, 1..3 workers, map/LRU, 16 operations with "
              "failure / gate patterns and cancellations of outstanding calls incl. a gate before the handler's cache Set/Delete, distinct by content) + "
              "seeded random plans (1..6 keys, 11 key schemes incl. extreme hash values and schemes in which "
              "distinct keys have equal HashedInt(): mixed wrapper types, CRC-32 collisions, constant hash; workers 1,2,3,5,8,127, queue depth 1,2,4,8192, LRU "
